@@ -86,7 +86,7 @@ func firstLines(s string, n int) string {
 // TestVerifC20Inputs: no loop body panics, whatever the coordination tree and the servers hold.
 func TestVerifC20Inputs(t *testing.T) {
 	stt := vs.NewStats(t, "C20")
-	stt.Rule = "cluster of 2-3 HA hosts (+0-1 cascade) converged by the real daemons, then 6-30 actions from {loop body (manager iteration / health / recovery check / lag check) of a drawn process, full round} interleaved with coordination-tree edits reachable through the CLI or external tools {unregister an HA host (also the recorded master, also a dead one), register it again, register a host that does not exist, stream_from pointing at an unregistered host / at itself / cascade entry removed, health record deleted or made stale, active_nodes with an unregistered name / empty / removed, recovery mark or optimisation-registry entry for an unregistered host, master key set to an unregistered host / to the cascade replica / removed, switch request naming an unregistered host, maintenance on/off} and faults {failing / hanging / cut statement at a drawn position, mysqld crash/start, ZooKeeper down/up, time jump}; oracle: no panic in any loop body (the harness recovers it; the daemon would die); non-trivial = at least one dangling reference or fault was injected"
+	stt.Rule = "cluster of 2-3 HA hosts (+0-1 cascade) converged by the real daemons, then 6-30 actions from {loop body (manager iteration / health / recovery check / lag check) of a drawn process, full round} interleaved with coordination-tree edits reachable through the CLI or external tools {unregister an HA host (also the recorded master, also a dead one), register it again, register a host that does not exist, stream_from pointing at an unregistered host / at itself / cascade entry removed, health record deleted or made stale, active_nodes with an unregistered name / empty / removed, recovery mark or optimisation-registry entry for an unregistered host, master key set to an unregistered host / to the cascade replica / removed, switch request naming an unregistered host, maintenance on/off; any of the registration/health/master/active-list edits also landing between two coordination requests of a running loop body} and faults {failing / hanging / cut statement at a drawn position, mysqld crash/start, ZooKeeper down/up, time jump}; oracle: no panic in any loop body (the harness recovers it; the daemon would die); non-trivial = at least one dangling reference or fault was injected"
 	stt.Assumptions = simAssumptions
 	stt.Check(t, vs.CheckOpts{Bubble: true}, func(c *vs.Case) {
 		n := c.Src.Int("ha_hosts", 2, 3)
@@ -113,7 +113,7 @@ func TestVerifC20Inputs(t *testing.T) {
 		hostile := false
 		steps := c.Src.Int("steps", 6, 30)
 		for i := 0; i < steps; i++ {
-			act := c.Src.Pick("action", "body", "body", "body", "round", "round", "unregister", "register-again", "register-ghost", "stream-from", "health-record", "active-nodes", "recovery-ghost", "optimization-ghost", "master-key", "switch-ghost", "maintenance", "fault", "crash", "start", "zk-down", "zk-up", "advance")
+			act := c.Src.Pick("action", "body", "body", "body", "round", "round", "unregister", "register-again", "register-ghost", "stream-from", "health-record", "active-nodes", "recovery-ghost", "optimization-ghost", "master-key", "switch-ghost", "maintenance", "fault", "crash", "start", "zk-down", "zk-up", "advance", "edit-during-a-body")
 			switch act {
 			case "body":
 				ps := s.alive()
@@ -204,6 +204,42 @@ func TestVerifC20Inputs(t *testing.T) {
 					s.opSwitch("", []string{"nowhere", pickHost("switch.host")}[c.Src.Int("switch.ghost", 0, 1)], c.Src.Bool("switch.failover"), "operator")
 				} else {
 					s.opSwitch([]string{"nowhere", pickHost("switch.host")}[c.Src.Int("switch.ghost", 0, 1)], "", c.Src.Bool("switch.failover"), "operator")
+				}
+				hostile = true
+			case "edit-during-a-body":
+				// "hosts added or removed at any moment": the edit lands between two coordination
+				// requests of whatever loop body runs next (one-shot)
+				at, n := c.Src.Int("edit.at_request", 1, 40), 0
+				kind := c.Src.Pick("edit.kind", "unregister", "register-again", "delete-health", "remove-master-key", "remove-active-nodes", "unregister-cascade")
+				h := pickHost("edit.host")
+				s.zk.Intercept = func(r *vs.ZKReq) vs.ZKAction {
+					if r.Client == "raw" || n < 0 {
+						return vs.ZKProceed
+					}
+					n++
+					if n != at {
+						return vs.ZKProceed
+					}
+					n = -1
+					switch kind {
+					case "unregister":
+						s.zk.RawDelete(simNS + "/" + pathHANodes + "/" + h)
+					case "register-again":
+						for _, x := range ha {
+							if _, ok := s.zkGet(pathHANodes + "/" + x); !ok {
+								raw(pathHANodes+"/"+x, mysql.NodeConfiguration{})
+							}
+						}
+					case "delete-health":
+						s.zk.RawDelete(simNS + "/" + pathHealthPrefix + "/" + h)
+					case "remove-master-key":
+						s.zk.RawDelete(simNS + "/" + pathMasterNode)
+					case "remove-active-nodes":
+						s.zk.RawDelete(simNS + "/" + pathActiveNodes)
+					case "unregister-cascade":
+						s.zk.RawDelete(simNS + "/" + pathCascadeNodesPrefix + "/c1")
+					}
+					return vs.ZKProceed
 				}
 				hostile = true
 			case "maintenance":
